@@ -34,6 +34,8 @@ mod server_request;
 #[cfg(not(target_arch = "wasm32"))]
 pub mod stream;
 pub mod structs;
+#[cfg(all(repe_verif, not(target_arch = "wasm32")))]
+pub mod verif_io;
 #[cfg(repe_verif_loom)]
 pub mod verif_loom;
 #[cfg(all(feature = "fleet-udp", not(target_arch = "wasm32")))]
